@@ -627,30 +627,56 @@ Fixpoint field_names (f : fld) : pyval :=
 (* number of locations two sets of roots have in common is observed through identity on the
    implementation side; the model's counterpart is the theorem sep_inv. *)
 
-(* stream `alias`: (schema text, events).  Observation: snapshot of every configuration, of every
-   schema default, and the field names, after the history. *)
-Definition run_alias (c : fld * list event) : pyval :=
-  let d := 64 in
-  match materialize d (fst c) [] with
-  | None => o_str "unmodelled"
-  | Some (h0, sigma) =>
-      let w := wrun true d sigma {| wh := h0; wroots := [] |} (snd c) in
-      PTuple [PList 0%N (map (fun r => snap d (wh w) (VRef r)) (wroots w));
-              PList 0%N (map (snap d (wh w)) (default_vals sigma));
-              field_names sigma]
+(* correspondence-only events (not part of the theorems' `wstep`):
+   XCross i j p k : cfg_i<p>.k = cfg_j<p>.k  -- a value READ FROM ANOTHER configuration is assigned.
+     For the fields the stream uses (typed list / dict with scalar items, scalar fields) the proxy
+     constructor stores a new container holding the same scalars: the stored value is what an
+     assignment of a fresh copy of the other configuration's value stores (OpSet of theorem
+     frame_config with argument = copy_val of the value read).
+   XRead : to_tree / dumps / asdict / validate / get_all_fields -- observers, no heap change. *)
+Inductive xevent :=
+| XE (e : event)
+| XCross (i j : nat) (p : list sel) (k : str)
+| XRead.
+
+Definition xstep (deep : bool) (d : nat) (sigma : fld) (w : world) (x : xevent) : world :=
+  match x with
+  | XE e => wstep deep d sigma w e
+  | XRead => w
+  | XCross i j p k =>
+      match nth_error (wroots w) i, nth_error (wroots w) j with
+      | Some ri, Some rj =>
+          match nav (wh w) (VRef rj) (p ++ [SAttr k]) with
+          | Some v =>
+              match copy_val d (wh w) v with
+              | Some (h1, v1) =>
+                  match nav h1 (VRef ri) p with
+                  | Some (VRef cl) => {| wh := fst (set_field deep d h1 cl k v1); wroots := wroots w |}
+                  | _ => w
+                  end
+              | None => w
+              end
+          | None => w
+          end
+      | _, _ => w
+      end
   end.
 
-(* the same run with the one-level copying of the code before the F30 repair *)
-Definition run_alias_shallow (c : fld * list event) : pyval :=
+(* stream `alias`: (schema text, events).  Observation: snapshot of every configuration, of every
+   schema default, and the field names, after the history. *)
+Definition run_alias_gen (deep : bool) (c : fld * list xevent) : pyval :=
   let d := 64 in
   match materialize d (fst c) [] with
   | None => o_str "unmodelled"
   | Some (h0, sigma) =>
-      let w := wrun false d sigma {| wh := h0; wroots := [] |} (snd c) in
+      let w := fold_left (xstep deep d sigma) (snd c) {| wh := h0; wroots := [] |} in
       PTuple [PList 0%N (map (fun r => snap d (wh w) (VRef r)) (wroots w));
               PList 0%N (map (snap d (wh w)) (default_vals sigma));
               field_names sigma]
   end.
+Definition run_alias : fld * list xevent -> pyval := run_alias_gen true.
+(* the same run with the one-level copying of the code before the F30 repair *)
+Definition run_alias_shallow : fld * list xevent -> pyval := run_alias_gen false.
 
 (* ---- heap version of IncludeField.combine_trees (purity clause of C18) ----
    ret = dict(base); for key, value in child.items(): ret[key] = combine_trees(base[key], value)
